@@ -62,6 +62,17 @@ Qed.
 Lemma Forall_filter {A} (P : A -> Prop) f l : Forall P l -> Forall P (filter f l).
 Proof. induction 1; cbn [filter]; [constructor|]. destruct (f x); [constructor|]; assumption. Qed.
 
+(* an EntryName (UTF-8, a fixed point of the sanitiser) is a valid name for the recogniser unless it is empty *)
+Lemma valid_name_sanitised n : utf8_valid n = true -> sanitize_name n = n -> n <> [] -> valid_name n = true.
+Proof.
+  intros U S NE. unfold valid_name. rewrite U. cbn [andb]. apply forallb_forall. intros c Hc.
+  assert (sanitize_name n <> []) as NE' by (rewrite S; exact NE).
+  pose proof (sanitize_safe_segments n NE') as F. rewrite S in F. rewrite Forall_forall in F.
+  apply normal_component_seg. exact (F c Hc).
+Qed.
+Lemma valid_name_nonempty n : valid_name n = true -> n <> [].
+Proof. intros V ->. vm_compute in V. discriminate. Qed.
+
 Section WfPipeline.
 Variable E : encryption -> bytes -> bytes -> bytes.
 Variable compress : compression -> N -> list bytes -> list bytes.
